@@ -207,7 +207,9 @@ Example c12_contract_example :
   end.
 Proof.
   vm_compute. repeat split; try (repeat constructor; fail); try lia.
+  all: try (intros _ m E; inversion E; subst; repeat constructor).
   all: try (intros m E; inversion E; subst; repeat constructor).
+  all: try (intros _; exact I).
 Qed.
 
 Example c12_wf_example : Forall op_wf ex_ops /\ Forall op_wf2 ex_ops /\ Forall op_wf3 ex_ops.
